@@ -672,6 +672,27 @@ func (w *wWorld) onAnchor(t *txn.SidetreeTxn, refs []*operation.Reference) {
 			idsOf(w.opsOfQ(c.ops)), idsOf(incl), idsOf(gotDef), idsOf(gotExp)))
 	}
 
+	// "anchored" means readable from what was anchored: the operations the writer counts as batched must be
+	// exactly the ones an independent reader gets out of the anchor string and the CAS files
+	if len(incl) > 0 {
+		if got, err := w.checker[t.ProtocolVersion].GetTxnOperations(t); err != nil {
+			w.fail("C16", "conservation/anchored-batch-unreadable", fmt.Sprintf("txn%d was anchored and acknowledged with operations %s, but it cannot be read back: %v", txnIdx, idsOf(incl), err))
+		} else {
+			have := map[string]bool{}
+			for _, g := range got {
+				have[simenv.ReqKey(g.OperationRequest)] = true
+			}
+
+			for _, op := range incl {
+				if !have[op.Key] {
+					w.fail("C16", "conservation/not-in-anchored-files", fmt.Sprintf("op%d is accounted as anchored in txn%d but is not among the %d operations readable from its files", op.ID, txnIdx, len(got)))
+
+					break
+				}
+			}
+		}
+	}
+
 	// the version label handed to the ledger must be the version the operations were queued under
 	for _, qo := range c.ops {
 		op := w.byKey[simenv.ReqKey(qo.OperationRequest)]
